@@ -34,6 +34,7 @@ def handle (line : String) : String :=
     | "to" :: rest => Timeout.driverLine rest obs
     | "toc" :: rest => Timeout.tocLine rest obs
     | "tlsch" :: rest => TlsInfo.driverLine rest obs
+    | "snie" :: rest => Sni.e2eLine rest obs
     | "wire" :: rest => Wire.driverLine rest obs
     | "st" :: rest => Streams.driverLine rest obs
     | "pool" :: rest => Pool.driverLine rest obs
